@@ -94,8 +94,15 @@ fn sched_variant(k: u64) -> Sched {
     }
 }
 
+/// C05 ranges over the 17 `Sequence` impls and the firmware upload.
+#[derive(Clone, Debug, PartialEq, serde::Serialize, serde::Deserialize)]
+pub enum C05Plan {
+    Seq(ExPlan),
+    Upload(crate::c11::C11Plan),
+}
+
 impl Check for C05 {
-    type Plan = ExPlan;
+    type Plan = C05Plan;
     fn id(&self) -> &'static str {
         "C05"
     }
@@ -103,7 +110,77 @@ impl Check for C05 {
         "exploration"
     }
 
-    fn families(&self, tier: Tier, _seed: u64) -> Vec<Family<ExPlan>> {
+    fn families(&self, tier: Tier, seed: u64) -> Vec<Family<C05Plan>> {
+        let mut out: Vec<Family<C05Plan>> = seq_families(tier, seed)
+            .into_iter()
+            .map(|f| {
+                let make = f.make;
+                Family {
+                    name: f.name,
+                    count: f.count,
+                    exhaustive: f.exhaustive,
+                    make: Box::new(move |i, rng| C05Plan::Seq(make(i, rng))),
+                }
+            })
+            .collect();
+        // the firmware upload: same terminal, same rules, answers are data blocks
+        let n = match tier {
+            Tier::Quick => 2_500,
+            Tier::Thorough => 60_000,
+        };
+        out.push(Family::new("firmware_upload_scripts", n, false, |_, rng| {
+            C05Plan::Upload(crate::c11::random_plan(rng, 4096))
+        }));
+        out
+    }
+
+    fn run(&self, plan: &C05Plan, want_trace: bool) -> RunOut {
+        match plan {
+            C05Plan::Seq(p) => run_and_judge(p, want_trace),
+            C05Plan::Upload(p) => crate::c11::run_plan(p, want_trace),
+        }
+    }
+
+    fn shrink(&self, plan: &C05Plan) -> Vec<C05Plan> {
+        match plan {
+            C05Plan::Seq(p) => shrink_explan(p).into_iter().map(C05Plan::Seq).collect(),
+            C05Plan::Upload(p) => crate::c11::C11.shrink(p).into_iter().map(C05Plan::Upload).collect(),
+        }
+    }
+
+
+
+    fn rule_text(&self) -> String {
+        "one run = one real Sequence::into_stream (17 impls) or the real WriteFile::into_stream (firmware upload, payload directory and request script from the PRNG, see C11) over a SimConn against a scripted terminal; scripts non-final^d final over the command's reply alphabet (bounded-exhaustive) and PRNG scripts to depth 40, x terminal mode (lockstep/eager/paced) x read chunking x short writes x Pending; distinct = hash of (sequence, mode, control-field list, outcome class, schedule class); non-trivial = mode != lockstep or a non-whole schedule".into()
+    }
+    fn assumptions(&self) -> Vec<String> {
+        vec![
+            "reply-alphabet table of DESIGN.md 5.2 (which control fields may follow each command and which are final)".into(),
+            "reference framing/codec of /verif/sim/src/refcodec.rs (self-tested against the captured blobs)".into(),
+            "item content is compared with the library's own stand-alone decode of the same frame".into(),
+        ]
+    }
+    fn components_real(&self) -> Vec<&'static str> {
+        vec![
+            "zvt::sequences::* (17 Sequence::into_stream)",
+            "zvt::feig::sequences::WriteFile::into_stream",
+            "zvt::io::PacketTransport",
+            "zvt_derive generated parsers/serialisers",
+            "zvt_builder codec",
+            "tokio::io read_exact/write_all",
+        ]
+    }
+    fn components_stub(&self) -> Vec<&'static str> {
+        vec!["connection (SimConn)", "terminal (scripted)", "executor (own poll loop, no clock needed)"]
+    }
+    fn expected_probes(&self) -> Vec<&'static str> {
+        vec!["sched.partial_read", "sched.spurious_pending", "sched.short_write"]
+    }
+}
+
+
+/// The families over the 17 `Sequence` impls.
+fn seq_families(tier: Tier, _seed: u64) -> Vec<Family<ExPlan>> {
         let depth = match tier {
             Tier::Quick => 3,
             Tier::Thorough => 4,
@@ -138,41 +215,6 @@ impl Check for C05 {
         };
         fams.push(Family::new("random_scripts", count, false, move |_i, rng| random_plan(rng, 40)));
         fams
-    }
-
-    fn run(&self, plan: &ExPlan, want_trace: bool) -> RunOut {
-        run_and_judge(plan, want_trace)
-    }
-
-    fn shrink(&self, plan: &ExPlan) -> Vec<ExPlan> {
-        shrink_explan(plan)
-    }
-
-    fn rule_text(&self) -> String {
-        "one run = one real Sequence::into_stream over a SimConn against a scripted terminal; scripts non-final^d final over the command's reply alphabet (bounded-exhaustive) and PRNG scripts to depth 40, x terminal mode (lockstep/eager/paced) x read chunking x short writes x Pending; distinct = hash of (sequence, mode, control-field list, outcome class, schedule class); non-trivial = mode != lockstep or a non-whole schedule".into()
-    }
-    fn assumptions(&self) -> Vec<String> {
-        vec![
-            "reply-alphabet table of DESIGN.md 5.2 (which control fields may follow each command and which are final)".into(),
-            "reference framing/codec of /verif/sim/src/refcodec.rs (self-tested against the captured blobs)".into(),
-            "item content is compared with the library's own stand-alone decode of the same frame".into(),
-        ]
-    }
-    fn components_real(&self) -> Vec<&'static str> {
-        vec![
-            "zvt::sequences::* (17 Sequence::into_stream)",
-            "zvt::io::PacketTransport",
-            "zvt_derive generated parsers/serialisers",
-            "zvt_builder codec",
-            "tokio::io read_exact/write_all",
-        ]
-    }
-    fn components_stub(&self) -> Vec<&'static str> {
-        vec!["connection (SimConn)", "terminal (scripted)", "executor (own poll loop, no clock needed)"]
-    }
-    fn expected_probes(&self) -> Vec<&'static str> {
-        vec!["sched.partial_read", "sched.spurious_pending", "sched.short_write"]
-    }
 }
 
 pub fn random_plan(rng: &mut Rng, max_depth: usize) -> ExPlan {
